@@ -7,10 +7,11 @@ from .. import gen
 from ..util import scale_of
 
 ID = "C15"
-CASES = {"quick": 4000, "thorough": 60000}
-MIN_NONTRIVIAL = {"quick": 1200, "thorough": 20000}
+CASES = {"quick": 4000, "thorough": 250000}
+MIN_NONTRIVIAL = {"quick": 1200, "thorough": 33990}
 REQUIRED = ["value==averaged 1-D transport cost", "symmetric", "reorder=>0", "triangle", "diagonal points ignored",
-            "diagonal translation (also negative)", "linear scaling", "SW <= 2*W1"]
+            "diagonal translation (also negative)", "linear scaling", "SW <= 2*W1",
+            "integer arrays == float arrays of the same values"]
 RULE = ("pairs/triples of diagrams with 0-40 points (quick <=25), empties, coordinates of both signs, near-diagonal points, "
         "M in {1,2,3,10,50}, scales 1e-3..1e3; translations along the diagonal into negative coordinates. non-trivial = both "
         "non-empty and (m != n or coordinates of mixed sign); distinct = digest of (pair, M)")
@@ -89,6 +90,22 @@ def run_case(ctx, k, rng):
     negsum = negsum or (bool(np.any(B.sum(axis=1) < 0)) if len(B) else False)
     ctx.check("value==averaged 1-D transport cost", abs(v - ref) <= tol(A, B), got=v, ref=ref, M=M,
               has_negative_birth_plus_death=negsum)
+    # representation: integer-valued diagrams as integer arrays (sums b+d of either parity) must give the same value
+    if rng.random() < 0.25 and len(A) and len(B):
+        Ai = np.round(A / sc * 7).astype(np.int64); Bi = np.round(B / sc * 7).astype(np.int64)
+        Ai[:, 1] = np.maximum(Ai[:, 1], Ai[:, 0]); Bi[:, 1] = np.maximum(Bi[:, 1], Bi[:, 0])
+        ctx.set_payload({"PD1": Ai, "PD2": Bi, "M": M, "dtype": "int64"})
+        try:
+            vi = float(f(Ai, Bi)); vf = float(f(Ai.astype(float), Bi.astype(float)))
+            refi = ref_sw(Ai, Bi, M)
+            ti = 1e-6 * scale_of(Ai, Bi) * (len(Ai) + len(Bi) + 1)
+            ctx.check("integer arrays == float arrays of the same values", abs(vi - vf) <= ti and abs(vi - refi) <= ti, int_form=vi,
+                      float_form=vf, ref=refi)
+            mixed = float(f(Ai, Bi.astype(float)))
+            ctx.check("integer arrays == float arrays of the same values", abs(mixed - refi) <= ti, mixed_form=mixed, ref=refi)
+        except Exception as e:
+            ctx.exception("integer arrays == float arrays of the same values", e)
+        ctx.set_payload({"PD1": A, "PD2": B, "M": M})
     try:
         sub = int(rng.integers(0, 6))
         if sub == 0:
